@@ -4,7 +4,6 @@ use crate::{
     ExternModule, Result,
     api::{Generic, IO, Unrooted, Userdata, WithVM, generic::A},
     gc::{CloneUnrooted, GcPtr, GcRef, Move, Trace},
-    thread::ThreadInternal,
     value::{Cloner, Value},
     vm::Thread,
 };
@@ -15,6 +14,8 @@ use crate::{
 pub struct Reference<T> {
     value: Mutex<Value>,
     thread: GcPtr<Thread>,
+    // Set when the reference has been cloned into the global heap (as part of a module)
+    in_global_heap: bool,
     _marker: PhantomData<T>,
 }
 
@@ -33,6 +34,7 @@ where
             let data: Box<dyn Userdata> = Box::new(Reference {
                 value: Mutex::new(cloned_value),
                 thread: GcPtr::from_raw(deep_cloner.thread()),
+                in_global_heap: deep_cloner.gc().generation().is_root(),
                 _marker: PhantomData::<A>,
             });
             deep_cloner.gc().alloc(Move(data))
@@ -51,7 +53,8 @@ unsafe impl<T> Trace for Reference<T> {
 }
 
 fn set(r: &Reference<A>, a: Generic<A>) -> IO<()> {
-    match r.thread.deep_clone_value(&r.thread, a.get_value()) {
+    match crate::value::deep_clone_into_cell(r.in_global_heap, &r.thread, &r.thread, a.get_value())
+    {
         // SAFETY Rooted when stored in the reference
         Ok(a) => unsafe {
             *r.value.lock().unwrap() = a.get_value().clone_unrooted();
@@ -72,6 +75,7 @@ fn make_ref(a: WithVM<Generic<A>>) -> IO<Reference<A>> {
         IO::Value(Reference {
             value: Mutex::new(a.value.get_value().clone_unrooted()),
             thread: GcPtr::from_raw(a.vm),
+                in_global_heap: false,
             _marker: PhantomData,
         })
     }
@@ -102,7 +106,12 @@ pub mod st {
     use crate::api::RuntimeResult;
 
     fn set(r: &Reference<A>, a: Generic<A>) -> RuntimeResult<(), String> {
-        match r.thread.deep_clone_value(&r.thread, a.get_value()) {
+        match crate::value::deep_clone_into_cell(
+            r.in_global_heap,
+            &r.thread,
+            &r.thread,
+            a.get_value(),
+        ) {
             // SAFETY Rooted when stored in the reference
             Ok(a) => unsafe {
                 *r.value.lock().unwrap() = a.get_value().clone_unrooted();
@@ -123,6 +132,7 @@ pub mod st {
             Reference {
                 value: Mutex::new(a.value.get_value().clone_unrooted()),
                 thread: GcPtr::from_raw(a.vm),
+                in_global_heap: false,
                 _marker: PhantomData,
             }
         }
